@@ -17,6 +17,7 @@ import (
 	wal "github.com/hashicorp/raft-wal"
 	"github.com/hashicorp/raft-wal/segment"
 	"github.com/hashicorp/raft-wal/types"
+	"go.etcd.io/bbolt"
 
 	"verif/internal/drv"
 	"verif/internal/evid"
@@ -579,9 +580,9 @@ func c11Decode(c *evid.Ctx, rng *rand.Rand) {
 // c11RealFailedOpen: production fs + BoltDB; after a failed Open a second Open
 // of the same directory in this process must return instead of blocking.
 func c11RealFailedOpen(c *evid.Ctx, rng *rand.Rand) {
-	rounds := 3
+	rounds := 5
 	if !quick(c) {
-		rounds = 20
+		rounds = 30
 	}
 	for r := 0; r < rounds; r++ {
 		dir, err := os.MkdirTemp("", "verif-c11-")
@@ -607,8 +608,29 @@ func c11RealFailedOpen(c *evid.Ctx, rng *rand.Rand) {
 				return
 			}
 			victim := names[1+rng.Intn(len(names)-2)]
-			kind := []string{"truncate", "remove", "garbage-header"}[r%3]
+			kind := []string{"truncate", "remove", "garbage-header", "garbage-meta-record", "truncated-meta-record"}[r%5]
 			switch kind {
+			case "garbage-meta-record", "truncated-meta-record":
+				// damage the stored metadata record itself, through bbolt
+				db, err := bbolt.Open(filepath.Join(dir, "wal-meta.db"), 0o600, &bbolt.Options{Timeout: 5 * time.Second})
+				if err != nil {
+					c.Inconclusive("cannot open wal-meta.db to damage it: %v", err)
+					return
+				}
+				db.Update(func(tx *bbolt.Tx) error {
+					b := tx.Bucket([]byte("wal-meta"))
+					raw := append([]byte{}, b.Get([]byte("m"))...)
+					if kind == "garbage-meta-record" {
+						for i := 0; i < 6 && len(raw) > 0; i++ {
+							raw[rng.Intn(len(raw))] = byte(rng.Intn(256))
+						}
+						raw = append([]byte("{{"), raw...)
+					} else if len(raw) > 10 {
+						raw = raw[:len(raw)/2]
+					}
+					return b.Put([]byte("m"), raw)
+				})
+				db.Close()
 			case "truncate":
 				os.Truncate(victim, 10)
 			case "remove":
@@ -623,7 +645,7 @@ func c11RealFailedOpen(c *evid.Ctx, rng *rand.Rand) {
 			c.Count("real_failed_open_cases", 1)
 			c.Distinct("case_classes", "real-failed-open|"+kind)
 			if err == nil {
-				c.Violation("C11:sealed-"+kind+"-accepted-realfs", "Open succeeded on a real directory with a damaged sealed segment", map[string]any{"kind": kind})
+				c.Violation("C11:damaged-"+kind+"-accepted-realfs", "Open succeeded on a real directory with a damaged sealed segment / metadata record", map[string]any{"kind": kind})
 				return
 			}
 			done := make(chan error, 1)
